@@ -369,10 +369,16 @@ Event ==
                    \cup (IF side = "C" /\ st[k] = "idle" /\ ~isTimeout /\ <<cNonce[p], Cur.err>> \notin errFwd[p]
                          THEN Flag("C07", "handshake-error-without-matching-refusal-frame") ELSE {})
                    \cup (IF established /\ ~isTimeout THEN Flag("C08", "handshake-error-on-established-connection") ELSE {})
+                   \* server side, no connection reported (or the last one has ended): a time-out can only be that of a pending handshake,
+                   \* for which the server has sent a SYN-ACK since the last terminal event of that address
+                   \cup (IF side = "S" /\ st[k] = "idle" /\ isTimeout /\ curSynack[p].nonce = NoNonce
+                         THEN Flag("C08", "timeout-reported-for-an-address-without-connection-or-pending-handshake") ELSE {})
               /\ st' = [st EXCEPT ![k] = IF side = "C" THEN "done" ELSE "idle"]
               /\ UNCHANGED <<used, sAccepted, cAccepted, verified, lastHeard, closing, relWait, sentOn, mustDeliver, discAt, discCount, lng, nData>>
          [] OTHER -> UNCHANGED <<bad, st, used, sAccepted, cAccepted, verified, lastHeard, closing, relWait, sentOn, mustDeliver, discAt, discCount, lng, nData>>
-    /\ UNCHANGED <<T, ka, inbox, lastStep, maxGap, connectT, cNonce, synSeen, synCount, curSynack, ackFwd, srvIssued, cliAcked, errFwd, saFwd, bytesIn, bytesOut, apPrev, apBefore, trackedPrev, trackedBefore, synThisStep, synLastStep, cfg>>
+    /\ curSynack' = IF Cur.ep = "s" /\ Cur.kind \in {"Disconnect", "Error"} /\ Cur.peer \in Peers
+                    THEN [curSynack EXCEPT ![Cur.peer] = [nonce |-> NoNonce, nonce_ack |-> NoNonce]] ELSE curSynack
+    /\ UNCHANGED <<T, ka, inbox, lastStep, maxGap, connectT, cNonce, synSeen, synCount, ackFwd, srvIssued, cliAcked, errFwd, saFwd, bytesIn, bytesOut, apPrev, apBefore, trackedPrev, trackedBefore, synThisStep, synLastStep, cfg>>
 
 \* --------------------------------------------------------------------------------------- end of step
 
